@@ -711,3 +711,71 @@ class rows_spelled_out:
     def ensures(old, s, a, result):
         yield "sum-of-the-shard-heights", result == rows_of(old.shards)
         yield "reads-only", s.fields["shards"].seq is old.fields["shards"].seq
+
+
+# ---- SolidCanvas over the real fields: __init__ (against the assumed canvas-protocol `solid_init`: size as given, no
+# cursor), cols / rows.  `content` is a generator (outside the subset): bounded check.
+from contracts import C11_width as W11  # noqa: E402
+from pyvc.api import Text  # noqa: E402
+
+UT = "urwid/util.py:"
+CS_RLE = ListOf(Tup(Opt(Atom("0")), Int(0)))
+
+
+@contract(UT + "apply_target_encoding", property=(), assumed=True,
+          notes="codecs / str.translate / bytes.split (outside the subset): returns (encoded bytes, charset run-length list). Trusted here: a text that has "
+                "a character of non-zero column width yields a non-empty run-length list -- the only bytes dropped are the shift controls SO / SI, whose "
+                "width is 0 (wcwidth -1, clamped), and the codec's error handler 'urwid_replace' substitutes '?' rather than dropping")
+class a_apply_target_encoding:
+    params = dict(s=Text("str"))
+    result = Tup(Text("bytes"), CS_RLE)
+
+    def ensures(a, r):
+        yield "visible-text-has-a-charset-run", implies(W11.W(a.s, W11.tlen(a.s)) - W11.W(a.s, 0) >= 1, Q.seq_len(r[1]) >= 1)
+
+
+SOLID = Obj(_canvas.SolidCanvas, {})
+
+
+@contract(CV + "SolidCanvas.__init__", property=("C02", "C01"), alias="real-fields", globals_=W11.ENC,
+          inline=("Canvas.__init__", "Canvas.set_cursor", "Canvas.widget_info"), replayable=False)
+class real_solid_init:
+    self_shape = SOLID
+    params = dict(fill_char=Text("str"), cols=Int, rows=Int)
+    raises = (ValueError,)
+
+    def ensures(old, s, a, result):
+        f = s.fields
+        t = a.fill_char
+        yield "returns-none", result is None
+        yield "fill-text-is-one-column-wide", exists_prefix_one_column(t)
+        # exactly the clause of the assumed `solid_init`: size as given, no cursor (and it is a leaf: no shards)
+        yield "size", both(f["size"][0] == a.cols, f["size"][1] == a.rows)
+        yield "no-cursor", "cursor" not in f["coords"].d
+        yield "a-leaf-not-finalized", "shards" not in f and f["_widget_info"] is None
+
+    def on_raise(old, s, a, exc):
+        # ValueError exactly when the text does not start with a run of characters one column wide in total
+        t = a.fill_char
+        yield "the-longest-prefix-within-one-column-is-narrower", neg(exists_prefix_one_column(t))
+
+
+def exists_prefix_one_column(t):
+    """Some prefix of t is exactly one column wide.  Stated through the SPECIFICATION of calc_text_pos(t, 0, len, 1)
+    (not through what the body computed): it stops at the longest prefix at most one column wide; if that one is
+    narrower than a column, every longer prefix is wider than one and every shorter one narrower."""
+    p, sc = W11.calc_text_pos.spec_value(None, text=t, start_offs=0, end_offs=W11.tlen(t), pref_col=1, g__byte_encoding=cur().ghost["globals"]["_byte_encoding"])
+    return sc == 1
+
+
+for _n, _i in (("cols", 0), ("rows", 1)):
+
+    @contract(CV + f"SolidCanvas.{_n}", property=("C02", "C01"), alias="real-fields", replayable=False)
+    class real_solid_dim:
+        self_shape = Obj(_canvas.SolidCanvas, dict(size=Tup(Int, Int)))
+        result = Int
+        raises = ()
+        _i = _i
+
+        def ensures(old, s, a, result, _i=_i):
+            yield "the-size-given-at-construction", both(result == old.size[_i], s.size[0] == old.size[0], s.size[1] == old.size[1])
